@@ -404,7 +404,26 @@ fn run_case(w: &mut World, c: &Case) -> Outcome {
             hist.push(format!("flat:instantiate:{}", if inst.is_ok() { "ok" } else { "err" }));
             if let Ok(addr) = &inst {
                 let root0 = query_root_flat(&app, addr).unwrap_or_default();
-                if root0 != init.root {
+                match denotes(&init.root, 32) {
+                    None => viol.push((
+                        "C14:flat-accepted-root-unusable".to_string(),
+                        format!("instantiate accepted the root string {:?}, which does not denote 32 bytes: nothing can ever verify against it", init.root),
+                    )),
+                    Some(_) => {
+                        if let Some(b) = &swept {
+                            let mut v2 = vec![];
+                            steps += sweep_flat(&app, addr, b, "instantiate", &mut v2);
+                            if v2.iter().any(|(k, _)| k == "C14:flat-member-rejected") {
+                                viol.push((
+                                    "C14:flat-accepted-root-unusable".to_string(),
+                                    format!("instantiate accepted the spelling {:?} of the tree's root, but its entries are rejected with their own proofs", init.root),
+                                ));
+                            }
+                            viol.extend(v2);
+                        }
+                    }
+                }
+                if !same_root(&root0, &init.root, 32) {
                     viol.push(("C14:flat-root-not-stored".to_string(), format!("instantiated with root {} but MerkleRoot answers {}", init.root, root0)));
                 }
                 for op in ops {
@@ -422,8 +441,8 @@ fn run_case(w: &mut World, c: &Case) -> Outcome {
                             any_ok |= r.is_ok();
                             let root = query_root_flat(&app, addr).unwrap_or_default();
                             let what = format!("migrate from ({}, {}) by {} ({})", name.as_deref().unwrap_or("own name"), version, sender, if r.is_ok() { "ok" } else { "err" });
-                            if root != init.root {
-                                viol.push(("C14:flat-root-changed".to_string(), format!("MerkleRoot was {} and is {} after {}", init.root, root, what)));
+                            if root != root0 {
+                                viol.push(("C14:flat-root-changed".to_string(), format!("MerkleRoot was {} and is {} after {}", root0, root, what)));
                             }
                             if r.is_err() && chain::storage_digest(&app, addr) != before {
                                 viol.push(("C14:flat-rejected-call-wrote".to_string(), format!("{} was rejected but storage changed", what)));
@@ -474,7 +493,7 @@ fn run_case(w: &mut World, c: &Case) -> Outcome {
                             };
                             any_ok |= r.is_ok();
                             let root = query_root_flat(&app, addr).unwrap_or_default();
-                            if root != init.root {
+                            if root != root0 {
                                 viol.push((
                                     "C14:flat-root-changed".to_string(),
                                     format!("MerkleRoot was {} and is {} after {} by {} ({})", init.root, root, tag, sender, if r.is_ok() { "ok" } else { "err" }),
@@ -503,12 +522,13 @@ fn run_case(w: &mut World, c: &Case) -> Outcome {
             }
             // migrate (same code, by the chain-level admin and by a stranger): the root stays
             if let Ok(addr) = &inst {
+                let root0 = query_root_flat(&app, addr).unwrap_or_default();
                 for who in [CREATOR, STRANGER] {
                     let r = catch(|| app.migrate_contract(Addr::unchecked(who), addr.clone(), &cosmwasm_std::Empty {}, code));
                     steps += 1;
                     let root = query_root_flat(&app, addr).unwrap_or_default();
                     hist.push(format!("flat:migrate:{}", if matches!(r, Ok(Ok(_))) { "ok" } else { "err" }));
-                    if root != init.root {
+                    if root != root0 {
                         viol.push(("C14:flat-root-changed".to_string(), format!("MerkleRoot was {} and is {} after migrate by {}", init.root, root, who)));
                     }
                 }
@@ -551,7 +571,26 @@ fn run_case(w: &mut World, c: &Case) -> Outcome {
             let mut ledger: Vec<StageSpec> = init.stages.clone();
             if let Ok(addr) = &inst {
                 let roots0 = query_roots_tiered(&app, addr).unwrap_or_default();
-                if roots0 != init.roots {
+                for (k, r) in init.roots.iter().enumerate() {
+                    if denotes(r, 16).is_none() {
+                        viol.push((
+                            "C14:tiered-accepted-root-unusable".to_string(),
+                            format!("instantiate accepted {:?} as the root of stage {}, which does not denote 16 bytes: nothing can ever verify against it", r, k),
+                        ));
+                    }
+                }
+                if !swept.is_empty() && init.roots.iter().all(|r| denotes(r, 16).is_some()) {
+                    let mut v2 = vec![];
+                    steps += sweep_tiered(&mut app, addr, &swept, Some(init.stages.clone()), "instantiate", &mut v2);
+                    if v2.iter().any(|(k, _)| k == "C14:tiered-member-rejected") {
+                        viol.push((
+                            "C14:tiered-accepted-root-unusable".to_string(),
+                            format!("instantiate accepted the spellings {:?} of the trees' roots, but entries of an active stage are rejected with their own proofs", init.roots),
+                        ));
+                    }
+                    viol.extend(v2);
+                }
+                if roots0.len() != init.roots.len() || roots0.iter().zip(init.roots.iter()).any(|(a, b)| !same_root(a, b, 16)) {
                     viol.push(("C14:tiered-roots-not-stored".to_string(), format!("instantiated with roots {:?} but MerkleRoots answers {:?}", init.roots, roots0)));
                 }
                 for op in ops {
@@ -570,8 +609,8 @@ fn run_case(w: &mut World, c: &Case) -> Outcome {
                             any_ok |= r.is_ok();
                             let roots = query_roots_tiered(&app, addr).unwrap_or_default();
                             let what = format!("migrate from ({}, {}) by {} ({})", name.as_deref().unwrap_or("own name"), version, sender, if r.is_ok() { "ok" } else { "err" });
-                            if roots != init.roots {
-                                viol.push(("C14:tiered-root-changed".to_string(), format!("MerkleRoots were {:?} and are {:?} after {}", init.roots, roots, what)));
+                            if roots != roots0 {
+                                viol.push(("C14:tiered-root-changed".to_string(), format!("MerkleRoots were {:?} and are {:?} after {}", roots0, roots, what)));
                             }
                             if r.is_err() && chain::storage_digest(&app, addr) != before {
                                 viol.push(("C14:tiered-rejected-call-wrote".to_string(), format!("{} was rejected but storage changed", what)));
@@ -639,7 +678,7 @@ fn run_case(w: &mut World, c: &Case) -> Outcome {
                             };
                             any_ok |= r.is_ok();
                             let roots = query_roots_tiered(&app, addr).unwrap_or_default();
-                            if roots != init.roots {
+                            if roots != roots0 {
                                 viol.push((
                                     "C14:tiered-root-changed".to_string(),
                                     format!("MerkleRoots were {:?} and are {:?} after {} by {} ({})", init.roots, roots, tag, sender, if r.is_ok() { "ok" } else { "err" }),
@@ -692,12 +731,13 @@ fn run_case(w: &mut World, c: &Case) -> Outcome {
                 }
             }
             if let Ok(addr) = &inst {
+                let roots0 = query_roots_tiered(&app, addr).unwrap_or_default();
                 for who in [CREATOR, STRANGER] {
                     let r = catch(|| app.migrate_contract(Addr::unchecked(who), addr.clone(), &cosmwasm_std::Empty {}, code));
                     steps += 1;
                     let roots = query_roots_tiered(&app, addr).unwrap_or_default();
                     hist.push(format!("tiered:migrate:{}", if matches!(r, Ok(Ok(_))) { "ok" } else { "err" }));
-                    if roots != init.roots {
+                    if roots != roots0 {
                         viol.push(("C14:tiered-root-changed".to_string(), format!("MerkleRoots were {:?} and are {:?} after migrate by {}", init.roots, roots, who)));
                     }
                 }
@@ -837,6 +877,51 @@ fn run_case(w: &mut World, c: &Case) -> Outcome {
             Outcome { coq, viol, nontrivial: stage.is_some() || alloc.is_some(), hist, observed: s, steps: 1 }
         }
     }
+}
+/// the bytes a root spelling is meant to denote, read generously (surrounding whitespace and
+/// a 0x / 0X prefix dropped, any case): Some(bytes) only for exactly 2*l hex digits.  Written
+/// from the property text; whether a spelling is ACCEPTED is the contract's business, the rule
+/// checked is: accepted => usable (its tree's entries are accepted, the root query denotes
+/// the same bytes)
+fn denotes(root: &str, l: usize) -> Option<Vec<u8>> {
+    let t = root.trim();
+    let t = t.strip_prefix("0x").or_else(|| t.strip_prefix("0X")).unwrap_or(t);
+    if t.len() == 2 * l && t.bytes().all(|c| c.is_ascii_hexdigit()) {
+        hex::decode(t).ok()
+    } else {
+        None
+    }
+}
+fn same_root(a: &str, b: &str, l: usize) -> bool {
+    match (denotes(a, l), denotes(b, l)) {
+        (Some(x), Some(y)) => x == y,
+        _ => a == b,
+    }
+}
+/// spellings of a root for the instantiate dimension: (name, string)
+fn spellings(root: &str, other_len_root: &str) -> Vec<(&'static str, String)> {
+    let n = root.len();
+    vec![
+        ("lower", root.to_string()),
+        ("upper", root.to_uppercase()),
+        ("mixed", spell(root, 2)),
+        ("0x-prefix", format!("0x{}", root)),
+        ("0X-prefix", format!("0X{}", root)),
+        ("0x-prefix-upper", format!("0x{}", root.to_uppercase())),
+        ("0x-instead-of-first-byte", format!("0x{}", &root[2..])),
+        ("leading-space", format!(" {}", root)),
+        ("trailing-space", format!("{} ", root)),
+        ("trailing-newline", format!("{}\n", root)),
+        ("leading-tab", format!("\t{}", root)),
+        ("one-digit-short", root[..n - 1].to_string()),
+        ("one-digit-long", format!("{}0", root)),
+        ("one-byte-short", root[..n - 2].to_string()),
+        ("one-byte-long", format!("{}00", root)),
+        ("empty", String::new()),
+        ("non-hex", format!("g{}", &root[1..])),
+        ("other-tree-length", other_len_root.to_string()),
+        ("0x-only", "0x".to_string()),
+    ]
 }
 pub const FLAT_CW2: &str = "crates.io:whitelist-merkletree";
 pub const TIERED_CW2: &str = "crates.io:tiered-whitelist-merkletree";
@@ -1049,6 +1134,8 @@ fn adversarial(b: &Built, i: usize, rng: &mut Rng, outsider: &str) -> Vec<(Strin
         ("non-hex-g", format!("g{}", &good[1..])),
         ("non-hex-space", format!(" {}", &good[1..])),
         ("0x-prefixed", format!("0x{}", &good[2..])),
+        ("0x-prefix-full", format!("0x{}", good)),
+        ("trailing-space-full", format!("{} ", good)),
         ("non-ascii", format!("é{}", &good[2..])),
     ];
     for (lab, bad) in bads {
@@ -1486,6 +1573,41 @@ fn flat_hist_cases(a: &Args, rng: &mut Rng) -> Vec<Case> {
     for (now, init) in inits {
         v.push(Case::FlatHist { members: None, now, init, ops: vec![q(0)] });
     }
+    // ROOT SPELLINGS: every spelling, then (if accepted) a query per entry, an Execute, an upgrade
+    let blake_root = build_tree(true, &ms, None).root_hex();
+    for (si, (_name, sp)) in spellings(&root, &blake_root).into_iter().enumerate() {
+        let init = FlatInit { root: sp, admins: vec![CREATOR.into(), ADMIN2.into()], ..d.clone() };
+        v.push(Case::FlatHist { members: None,
+            now: BASE, init,
+            ops: vec![
+                q(si % 6), q((si + 1) % 6), FlatOp::Query { member: ms[0].clone(), proof: b.proof_hex(1) },
+                FlatOp::Exec { now: BASE + 5, sender: CREATOR.into(), kind: FlatOpKind::UpdateEnd(d.end + 7) },
+                FlatOp::Exec { now: BASE + 6, sender: CREATOR.into(), kind: FlatOpKind::Migrate { name: None, version: "3.0.0".into() } },
+                q((si + 2) % 6),
+            ],
+        });
+    }
+    // OPTIONAL FIELDS present and absent: tree uri None / Some(valid) / Some("") / Some(invalid),
+    // admins none / one / two, limits 0 / 1 / u32::MAX, mutable or not -- each with the full sweep
+    let mut oi = 0usize;
+    for uri in [None, Some("https://example.com/tree.json".to_string()), Some("ipfs://bafy/tree".to_string()), Some(String::new()), Some("not a url".to_string())] {
+        for admins in [vec![], vec![CREATOR.to_string()], vec![CREATOR.to_string(), ADMIN2.to_string()]] {
+            for limit in [0u32, 1, u32::MAX] {
+                oi += 1;
+                let init = FlatInit { uri: uri.clone(), admins: admins.clone(), limit, mutable: oi % 2 == 0, root: if oi % 4 == 1 { root.to_uppercase() } else { root.clone() }, ..d.clone() };
+                v.push(Case::FlatHist { members: None,
+                    now: BASE, init,
+                    ops: vec![
+                        q(oi % 6),
+                        FlatOp::Exec { now: BASE + 5, sender: CREATOR.into(), kind: FlatOpKind::UpdateEnd(d.end + 7) },
+                        FlatOp::Exec { now: BASE + 6, sender: CREATOR.into(), kind: FlatOpKind::Migrate { name: None, version: "3.9.0".into() } },
+                        FlatOp::Exec { now: BASE + 7, sender: CREATOR.into(), kind: FlatOpKind::Freeze },
+                        q((oi + 3) % 6), FlatOp::Query { member: "evil".into(), proof: vec![] },
+                    ],
+                });
+            }
+        }
+    }
     // guard-boundary probes of every Execute message, every sender role
     let two_admins = FlatInit { admins: vec![CREATOR.into(), ADMIN2.into()], ..d.clone() };
     for sender in [CREATOR, ADMIN2, STRANGER] {
@@ -1597,7 +1719,7 @@ fn flat_hist_cases(a: &Args, rng: &mut Rng) -> Vec<Case> {
     // histories over the true root (any spelling): sweep membership after every step
     for c in v.iter_mut() {
         if let Case::FlatHist { init, members, .. } = c {
-            if init.root.eq_ignore_ascii_case(&root) {
+            if denotes(&init.root, 32) == hex::decode(&root).ok() {
                 *members = Some(Members::Short { n: 6 });
             }
         }
@@ -1687,6 +1809,50 @@ fn tiered_hist_cases(a: &Args, rng: &mut Rng) -> Vec<Case> {
                     TieredOp::Query { now: mid(0), member: "evil".into(), proof: vec![] },
                 ],
             });
+        }
+    }
+    // ROOT SPELLINGS for every stage root (one position at a time, then all three)
+    let sha_of_first = build_tree(false, &lists[0], None).root_hex();
+    let per_root: Vec<Vec<(&'static str, String)>> = roots.iter().map(|r| spellings(r, &sha_of_first)).collect();
+    let nsp = per_root[0].len();
+    for si in 0..nsp {
+        for pos in 0..4usize {
+            if pos < 3 && !a.thorough() && si < 3 && pos != si % 3 {
+                continue; // accepted spellings: one position each in the quick tier (all three together below)
+            }
+            let rs: Vec<String> = (0..3).map(|k| if pos == 3 || pos == k { per_root[k][si].1.clone() } else { roots[k].clone() }).collect();
+            v.push(Case::TieredHist { lists: vec![],
+                now: BASE, init: TieredInit { roots: rs, ..d.clone() },
+                ops: vec![
+                    q(0, si % 4, mid(0)), q(1, si % 5, mid(1)), q(2, si % 6, mid(2)), q(1, 0, mid(0)),
+                    TieredOp::Exec { now: BASE + 5, sender: CREATOR.into(), kind: TieredOpKind::UpdateStage { id: 2, start: None, end: Some(stages[2].end + 9), denom: None, limit: None } },
+                    TieredOp::Exec { now: BASE + 6, sender: CREATOR.into(), kind: TieredOpKind::Migrate { name: None, version: "3.0.0".into() } },
+                    q(2, 1, mid(2)),
+                ],
+            });
+        }
+    }
+    // OPTIONAL FIELDS present and absent: tree uris None / Some([]) / one per stage / fewer / more /
+    // an invalid one, admins none / one / two, mutable or not -- each with the full sweep
+    let mut oi = 0usize;
+    for uris in [None, Some(vec![]), Some(vec!["https://example.com/a".to_string(), "ipfs://b".to_string(), "https://example.com/c".to_string()]),
+                 Some(vec!["https://example.com/a".to_string()]), Some((0..5).map(|k| format!("https://example.com/{}", k)).collect()),
+                 Some(vec!["https://example.com/a".to_string(), "not a url".to_string(), "ipfs://c".to_string()]), Some(vec![String::new()])] {
+        for admins in [vec![], vec![CREATOR.to_string()], vec![CREATOR.to_string(), ADMIN2.to_string()]] {
+            for nst in [1usize, 3] {
+                oi += 1;
+                let init = TieredInit { uris: uris.clone(), admins: admins.clone(), mutable: oi % 2 == 0, stages: stages[..nst].to_vec(), roots: roots[..nst].to_vec(), ..d.clone() };
+                v.push(Case::TieredHist { lists: vec![],
+                    now: BASE, init,
+                    ops: vec![
+                        q(0, oi % 4, mid(0)),
+                        TieredOp::Exec { now: BASE + 5, sender: CREATOR.into(), kind: TieredOpKind::UpdateStage { id: 0, start: None, end: None, denom: None, limit: Some(2) } },
+                        TieredOp::Exec { now: BASE + 6, sender: CREATOR.into(), kind: TieredOpKind::Migrate { name: None, version: "3.9.0".into() } },
+                        TieredOp::Exec { now: BASE + 7, sender: CREATOR.into(), kind: TieredOpKind::Freeze },
+                        q(0, (oi + 1) % 4, mid(0)), TieredOp::Query { now: mid(0), member: "evil".into(), proof: vec![] },
+                    ],
+                });
+            }
         }
     }
     // re-scheduling by the admin, every stage index: in place, shrink, grow to touch, overlap or
@@ -1831,7 +1997,7 @@ fn tiered_hist_cases(a: &Args, rng: &mut Rng) -> Vec<Case> {
     // histories whose stored roots are the first k true roots: sweep membership after every step
     for c in v.iter_mut() {
         if let Case::TieredHist { init, lists, .. } = c {
-            if !init.roots.is_empty() && init.roots.len() <= 3 && init.roots.iter().zip(roots.iter()).all(|(x, y)| x.eq_ignore_ascii_case(y)) {
+            if !init.roots.is_empty() && init.roots.len() <= 3 && init.roots.iter().zip(roots.iter()).all(|(x, y)| denotes(x, 16).is_some() && denotes(x, 16) == hex::decode(y).ok()) {
                 *lists = (0..init.roots.len()).map(|s| Members::Stars { n: 4 + s, salt: 40 + s as u64, dups: vec![] }).collect();
             }
         }
